@@ -66,6 +66,25 @@ def sql_cases(tier, seed):
                                         rng.randint(0, 8), rng.choice("fr")))
         ops += ["len", "walk"]
         cases.append((head, ops))
+    # a LATER session (the database closed and reopened, possibly more than once) re-enters a line an earlier session stored
+    # (duplicates ignored: the older row goes), then searches whose scan passes the place of the removed row, from both ends
+    for i in range(max(6, n // 16)):
+        head = "100 %d 1" % (i % 3 == 0)
+        words = rng.sample(["git status", "git push", "ls", "src main", "status", "grep src", "a", "b git"], rng.randint(3, 6))
+        ops = ["add " + enc([ord(c) for c in w]) for w in words] + ["reopen"] * (1 + i % 2)
+        again = rng.choice(words[:-1])
+        ops.append("add " + enc([ord(c) for c in again]))
+        if i % 2 == 0:
+            # and once more in the SAME later session, after another line (the duplicate rule is per session)
+            ops += ["add " + enc([ord(c) for c in rng.choice(["git log", "s2"])]), "add " + enc([ord(c) for c in again])]
+        if i % 4 == 0:
+            ops += ["add " + enc([ord(c) for c in "zz"]), "reopen", "add " + enc([ord(c) for c in rng.choice(words[:-1])])]
+        for term in ["git", "s", again[:2], rng.choice(["status", "src", "a", "ls"])]:
+            ops.append("%s %s 0 f" % (rng.choice(["search", "sw"]), enc([ord(c) for c in term])))
+            ops.append("%s %s %d r" % (rng.choice(["search", "sw"]), enc([ord(c) for c in term]), len(words) + 2))
+            ops.append("%s %s %d %s" % (rng.choice(["search", "sw"]), enc([ord(c) for c in term]), rng.randint(0, len(words)), rng.choice("fr")))
+        ops += ["len", "walk"]
+        cases.append((head, ops))
     return cases
 
 
